@@ -45,7 +45,8 @@ Rules == {"std", "leaf", "nomem", "bp"}
 \* leaf : .cfa: $rsp 8 + .ra: .cfa 8 - ^
 \* nomem: .cfa: $rsp 8 + .ra: <A1>            (never touches memory)
 \* bp   : .cfa: $rbp 16 + .ra: .cfa 8 - ^ $rbp: .cfa 16 - ^
-Vals == {0, A1, A3, A4, Base, Base + 16, Base + 24, NC}
+AE == F1hi + 1      \* the return address of a call that is the last instruction of F1 (a noreturn callee): the look-up address AE - 1 is in F1
+Vals == {0, A1, A3, A4, AE, Base, Base + 16, Base + 24, NC}
 
 VARIABLES mem, rule, frames, done, expect
 vars == <<mem, rule, frames, done, expect>>
@@ -143,14 +144,15 @@ InitAny == /\ mem \in [1..NW -> Vals] /\ rule \in Rules /\ (\E c \in Ctx0 : fram
 \* ---- Mode "built": well-formed stacks ----
 \* a call: how the walker is meant to find ITS CALLER: "fp" (standard prologue, in F2: no CFI), "cfi" (in F1, rule std),
 \* "scan" (in M2: no symbols, frame pointer useless); pad = filler words (0) between the frame's sp and its record
-Calls == [tech : {"fp", "cfi", "scan"}, pad : Pads]
+\* "cfiend": as "cfi", but the frame is entered at the very end of F1 (return address AE)
+Calls == [tech : {"fp", "cfi", "cfiend", "scan"}, pad : Pads]
 \* documented preconditions: a frame-pointer / CFI frame uses pad <= 1 here; a scanned return address must lie inside the scan
 \* window: within 160 words of sp when scanning from the context frame, within 40 words otherwise
 PadOk(ch) == \A k \in 1..Len(ch) : IF ch[k].tech = "scan" THEN ch[k].pad < (IF k = 1 THEN 160 ELSE 40) ELSE ch[k].pad <= 1
 Chains == UNION {[1..n -> Calls] : n \in 1..MaxDepth}
-IpOf(tech) == CASE tech = "fp" -> A2 [] tech = "cfi" -> A1 [] tech = "scan" -> A4
+IpOf(tech) == CASE tech = "fp" -> A2 [] tech = "cfi" -> A1 [] tech = "cfiend" -> AE [] tech = "scan" -> A4
 \* a chain is buildable when a frame found by scanning is not followed by a frame that needs its frame pointer
-Buildable(ch) == PadOk(ch) /\ \A k \in 1..(Len(ch) - 1) : ch[k].tech = "scan" => ch[k+1].tech # "fp"
+Buildable(ch) == PadOk(ch) /\ ch[1].tech # "cfiend" /\ \A k \in 1..(Len(ch) - 1) : ch[k].tech = "scan" => ch[k+1].tech # "fp"
 \* layout: returns [words, frames]; frame k has sp_k; its caller record sits above it
 RECURSIVE Lay(_,_,_,_,_)
 Lay(ch, k, sp, words, fr) ==        \* words: function address -> value (partial, as a set of pairs)
@@ -165,7 +167,7 @@ Lay(ch, k, sp, words, fr) ==        \* words: function address -> value (partial
                   csp == rec + 16
                   cbp == IF nextNeedsFp THEN (IF Os = "windows" THEN csp ELSE csp + Ptr * ch[k+1].pad) ELSE csp      \* a readable, sane value >= csp
               IN Lay(ch, k + 1, csp, words \cup {<<rec, cbp>>, <<rec + 8, nextIp>>}, Append(fr, [ip |-> nextIp, sp |-> csp, trust |-> "frame_pointer", bp |-> rec]))
-         [] c.tech = "cfi" ->
+         [] c.tech \in {"cfi", "cfiend"} ->
               \* rule std: cfa = sp + 16 ; ra at cfa-8 ; saved rbp at cfa-16
               LET csp == sp + 16
                   cbp == IF nextNeedsFp THEN (IF Os = "windows" THEN csp ELSE csp + Ptr * ch[k+1].pad) ELSE 0
